@@ -181,17 +181,28 @@ CHECK = {
             "borders +-1 ulp, on centres, random; cells 0, n-1 and five interior fractions per axis; non-trivial = >= 3 cells on an axis",
     "trusted": ["hand-written model coq/GridMapModel.v tied by differential execution (this run)",
                 "extraction (ExtrOcamlBasic), ocaml/numf.ml (binary32 = round of binary64 result), ocaml/drv_C13.ml",
-                "harness/C13.cpp, python oracle in checks/C13.py"],
-    "assumptions": ["theorems are over the reals; the float behaviour (rounding of the quotient before truncation) is observed, "
-                    "explained by the half-cell margin theorem, not proved"],
+                "harness/C13.cpp, python oracle in checks/C13.py",
+                "binary64/binary32 theorems: hardware float/double arithmetic = Flocq round-to-nearest-even in FLT_exp(-1074,53) / "
+                "FLT_exp(-149,24), one rounding per C++ operation (no x87 excess precision, no FMA contraction); the rounded "
+                "dictionaries FlOps are not extracted, the executed ones are in ocaml/numf.ml"],
+    "assumptions": ["floating point: proved (coq/GridMapFloat.v, Flocq) for binary64 on 2^-900 <= r <= 2^900, |lo|,|hi| <= 2^40*r and for "
+                    "binary32 on 2^-100 <= r <= 2^100, |lo|,|hi| <= 2^20*r; outside those domains the effect of rounding is only "
+                    "observed by the oracle (explained by the half-cell margin theorem over the reals, not proved)"],
     "manifest": {
         "text": "For every resolution r>0, extent lo<=hi and point in the extent (reals): half-cell margin 1/2 <= (p-origin)/r <= n-1/2, "
                 "hence index in [0,n), |p - centre(index)| <= r/2, centres map to their own index, are spaced by exactly r, and the "
-                "first/last cells cover the bounds — proved in Coq (Flocq Zfloor/Zceil/Ztrunc) about the model instantiated at R; the "
-                "same model instantiated at binary64/binary32 is run against GridIndexMapping<float|double,2|3> on inputs aimed at "
-                "cell borders, with an exact-rational oracle of the property.",
-        "note": "Trusted: Coq kernel, stdlib real axioms, Flocq Raux; hand model tied by differential run; extraction; float dictionaries; "
-                "harness; oracle. Float rounding observed, not proved.",
-        "technique": "Coq proof over R (floor/ceil/trunc arithmetic) + extracted-model correspondence in binary64/binary32",
+                "first/last cells cover the bounds — proved in Coq (Flocq Zfloor/Zceil/Ztrunc) about the model instantiated at R. "
+                "The same statements are proved in IEEE-754 arithmetic (same model instantiated at a dictionary that rounds to "
+                "nearest-even after every C++ operation, Flocq FLT format; one error analysis for any precision) for binary64 on "
+                "2^-900 <= r <= 2^900, |lo|,|hi| <= 2^40*r and for binary32 on 2^-100 <= r <= 2^100, |lo|,|hi| <= 2^20*r (both contain the "
+                "property's envelope r in [1e-3,10], bounds in [-1e3,1e3]): no intermediate overflows, the cell count is computed "
+                "exactly, the truncated quotient keeps a margin (1/4 cell in binary64, 1/16 cell in binary32) so 0 <= index < n, "
+                "|p - centre(index)| <= r/2 + 8*eps*max(|lo|,|hi|,r) + 8*eps*r (eps = 2^-52 / 2^-23: the oracle's tolerance; in binary64 "
+                "also <= r/2 + r/512), index(centre(k)) = k for every cell, consecutive centres are r apart within the same slack, "
+                "first/last cells cover the bounds with no slack. The model instantiated at binary64/binary32 is run against "
+                "GridIndexMapping<float|double,2|3> on inputs aimed at cell borders, with an exact-rational oracle of the property.",
+        "note": "Trusted: Coq kernel, stdlib real axioms, Flocq (Raux, generic formats, error_N_FLT); hand model tied by differential run; "
+                "extraction; float dictionaries; harness; oracle; hardware float/double = Flocq rounding.",
+        "technique": "Coq proof over R (floor/ceil/trunc arithmetic) + Flocq rounding-error proof in binary64 and binary32 + extracted-model correspondence in binary64/binary32",
     },
 }
